@@ -1032,12 +1032,32 @@ def enumerate_paths(body, limit=4000, max_visits=1, start=0):
             l = st["place"]["l"]
             rv = st["rv"]
             val = None
+            if rv["k"] == "aggregate" and rv.get("agg") == "tuple":
+                # constants stored in a tuple that is taken apart again later: `let (text, is_debit) = if .. {(a, false)} ..`
+                for f in rv["fields"]:
+                    o = f["op"]
+                    fv = None
+                    if o.get("k") == "const" and "int" in o:
+                        fv = o["int"]
+                    elif o.get("k") in ("copy", "move") and not o["place"]["p"]:
+                        fv = c.get(o["place"]["l"])
+                    if fv is not None or (l, f["name"]) in c:
+                        if not changed:
+                            c = dict(c)
+                            changed = True
+                        if fv is None:
+                            del c[(l, f["name"])]
+                        else:
+                            c[(l, f["name"])] = fv
+                continue
             if rv["k"] == "use":
                 o = rv["op"]
                 if o.get("k") == "const" and "int" in o:
                     val = o["int"]
                 elif o.get("k") in ("copy", "move") and not o["place"]["p"]:
                     val = c.get(o["place"]["l"])
+                elif o.get("k") in ("copy", "move") and len(o["place"]["p"]) == 1 and o["place"]["p"][0].get("k") == "field":
+                    val = c.get((o["place"]["l"], o["place"]["p"][0].get("name")))
             elif rv["k"] == "unop" and rv["op"] == "Not":
                 o = rv["x"]
                 if o.get("k") in ("copy", "move") and not o["place"]["p"]:
@@ -1126,6 +1146,35 @@ def enumerate_paths(body, limit=4000, max_visits=1, start=0):
                 continue
             stack.append((s, blocks + (s,), atoms, calls, step_consts(s, consts)))
     return results
+
+
+def path_body(body, path_blocks):
+    """the straight-line function that executes exactly the blocks of one enumerated path (switches replaced by the
+    jump the path takes, calls continuing in the path's next block).  Flow-insensitive queries on it are path-sensitive
+    queries on the original."""
+    import copy as _copy
+    raw = {k: v for k, v in body.raw.items() if k != "blocks"}
+    raw = _copy.copy(raw)
+    raw["locals"] = body.raw["locals"]
+    blocks = []
+    n = len(path_blocks)
+    for i, bb in enumerate(path_blocks):
+        src = body.blocks[bb]
+        t = src["term"]
+        if i == n - 1:
+            nt = t
+        elif t["k"] == "call":
+            nt = dict(t, target=i + 1, unwind=None)
+        elif t["k"] in ("drop", "assert"):
+            nt = dict(t, target=i + 1, unwind=None)
+        else:
+            nt = {"k": "goto", "target": i + 1, "span": t["span"]}
+        blocks.append({"cleanup": False, "stmts": src["stmts"], "term": nt, "orig": bb})
+    raw["blocks"] = blocks
+    pb = Body(raw, body.crate, body.factfile)
+    pb.path_of = body.key
+    pb.orig_blocks = list(path_blocks)
+    return pb
 
 
 # ---------------------------------------------------------------------------
